@@ -1,4 +1,5 @@
 import PenneModel.Sem.Int
+import PenneModel.CF.Correct
 /-
   C01 — compiled programs behave as their source prescribes.  Property theorems (operator level).
 
@@ -6,9 +7,35 @@ import PenneModel.Sem.Int
   gives operators their *documented* meaning on mathematical integers wrapped into the type's range.  The theorems
   here show that the LLVM instruction the generator selects for each operator (`Sem.machineBin`, `machineCmp`,
   `trunc`/`sext`/`zext`) computes exactly that meaning — for every bit width at once, signedness following the
-  operand type.  Not proved here: the lowering of statements/control flow to basic blocks and address computation
-  (covered by the end-to-end correspondence only).
+  operand type.
+
+  Control flow (`CF/Defs.lean`, `CF/Correct.lean`): the structured control constructs (blocks, `if`/`else`, forward `goto`,
+  labels, blocks ending in `loop`) over opaque actions and oracle-driven conditions; `CF.execL` is the control part of the
+  source interpreter, `CF.compBody` the lowering to a flow graph of named code blocks, `CF.run` its execution.
+  `control_flow_lowering_correct`: whenever the source semantics runs a body to its end, the lowered graph produces exactly
+  the same trace — any nesting, any number of jumps and loop iterations.  checks/c01.py ties both ends to the compiler on
+  every run: the trace the real program prints equals `execL`'s, and the basic blocks of the real IR are bisimilar to the
+  lowered graph.  Not proved: expression evaluation order and address computation (end-to-end correspondence only).
 -/
+namespace CF
+
+/-- **control-flow lowering preserves behaviour** (statement in CF/Correct.lean) -/
+theorem control_flow_lowering_correct (ss : Stmts) (hnd : ((compBody ss).2.map (·.1)).Nodup) (f : Nat) (o : List Bool)
+    (tr : List Ev) (o' : List Bool) (h : execL f ss ss false o = some (tr, o', .next)) :
+    ∃ f', run (compBody ss).2 f' (compBody ss).1 o = some (tr, o') :=
+  lowering_correct ss hnd f o tr o' h
+
+/-- the hypotheses are satisfiable by a body with a conditional, a looped block left by a forward `goto`, and a label -/
+example :
+    let body : Stmts := .cons (.act 1) (.cons (.ifThen 5 (.block 1 (.cons (.act 2) .nil) false))
+      (.cons (.block 2 (.cons (.ifThen 6 (.goto 9)) (.cons (.act 3) .nil)) true) (.cons (.label 9) (.cons (.act 4) .nil))))
+    ((compBody body).2.map (·.1)).Nodup ∧
+      execL 50 body body false [true, false, true] =
+        some ([.act 1, .cond 5 true, .act 2, .cond 6 false, .act 3, .cond 6 true, .act 4], [], .next) := by
+  decide
+
+end CF
+
 namespace Sem
 open Lex Lit
 
